@@ -7,7 +7,7 @@ from harness.runner import Prop, Enumeration, held, failed
 B = wire.build_frame
 
 PROXY_HOSTS = ["proxy.test", "10.0.0.9", "squid.corp.example"]
-TARGET_HOSTS = ["example.test", "ws.service.example", "127.0.0.1"]
+TARGET_HOSTS = ["example.test", "ws.service.example", "127.0.0.1", "[::1]", "[2001:db8::7]"]
 
 REPLIES = [
     # (name, bytes or None for 'built', is a complete 200?)
@@ -248,9 +248,9 @@ class C19(Prop):
         all_written = b"".join(e[2] for e in sends)
         # ---- direct connection expected
         if not chosen:
-            if sim.getaddrinfo_calls[:1] != [(case["host"], tport)]:
+            if sim.getaddrinfo_calls[:1] != [(case["host"].strip("[]"), tport)]:
                 return failed("wrong_peer", "no proxy applies (%s) but the client resolved %s, expected %s" % (
-                    mapping, sim.getaddrinfo_calls, (case["host"], tport)), labels, nontrivial)
+                    mapping, sim.getaddrinfo_calls, (case["host"].strip("[]"), tport)), labels, nontrivial)
             if b"CONNECT " in all_written:
                 return failed("unexpected_proxy_use", "CONNECT written although no proxy applies (%s, %s)" % (mapping, scheme),
                               labels, nontrivial)
@@ -327,7 +327,7 @@ class C19(Prop):
                 len(wraps), want_wraps, chosen_spec["scheme"], scheme), labels, nontrivial)
         if secure:
             log_pos = {id(e): i for i, e in enumerate(sim.log)}
-            if log_pos[id(wraps[-1])] > log_pos[id(sends[1])] or wraps[-1][2] != case["host"]:
+            if log_pos[id(wraps[-1])] > log_pos[id(sends[1])] or wraps[-1][2] != case["host"].strip("[]"):
                 return failed("tls_wrapping", "target TLS must start after the tunnel is up and before the GET, for host %r: %r" % (
                     case["host"], wraps[-1]), labels, nontrivial)
         if later_fault and "connected" not in names:
